@@ -3,6 +3,7 @@
 -/
 import MicroHttp.ConnSpec
 import MicroHttp.Server
+import MicroHttp.Proofs.Continue
 namespace MicroHttp.C13
 open MicroHttp
 variable {RL H : Type}
@@ -15,18 +16,18 @@ theorem cont_iff (P : Params RL H) (L : Nat) (r : Req RL H) (a : Abs RL H) (outs
     conts outs =
       if P.expect r.headers = true ∧ 0 < P.clen r.headers ∧ P.clen r.headers ≤ L
       then [P.contOf r.line] else [] := by
-  sorry
+  exact cont_iff' P L r a outs h
 
 /-- Nothing else ever emits one: not a request line, not a header line, not a body byte. -/
 theorem cont_only_at_end_of_headers (P : Params RL H) (L : Nat) (ph : Phase RL H) (l : List Byte)
     (a : Abs RL H) (outs : List (Out RL H)) (h : processLine P L ph l = .ok (a, outs))
     (hnot : ∀ r, ¬ (ph = .hdrs r ∧ l = [])) : conts outs = [] := by
-  sorry
+  exact cont_only_at_end_of_headers' P L ph l a outs h hnot
 
 theorem body_byte_no_cont (P : Params RL H) (L : Nat) (r : Req RL H) (got : List Byte) (need : Nat) (acc : List Byte)
     (b : Byte) (a : Abs RL H) (outs : List (Out RL H))
     (h : feedByte P L ⟨.body r got need, acc⟩ b = .ok (a, outs)) : conts outs = [] := by
-  sorry
+  exact body_byte_no_cont' P L r got need acc b a outs h
 
 /-- It is queued before any body byte is required: the blank line alone produces it, and the
     automaton is then waiting for the first body byte. -/
@@ -34,20 +35,20 @@ theorem cont_before_body (P : Params RL H) (hB : 1 < P.B) (L : Nat) (r : Req RL 
     (he : P.expect r.headers = true) (h0 : 0 < P.clen r.headers) (hL : P.clen r.headers ≤ L) :
     feed P L ⟨.hdrs r, []⟩ CRLF =
       ([.cont (P.contOf r.line)], .ok ⟨.body { r with body := some [] } [] (P.clen r.headers), []⟩) := by
-  sorry
+  exact cont_before_body' P hB L r he h0 hL
 
 /-- The interim response of the real instance: `100` with the request's version, and no
     Content-Length (so it is self-delimiting by its blank line). -/
 theorem cont_response (rl : RequestLine) :
     (P0.contOf rl).status = .continue_ ∧ (P0.contOf rl).version = rl.version ∧
     (P0.contOf rl).contentLength = none ∧ (P0.contOf rl).body = none := by
-  sorry
+  exact cont_response' rl
 
 /-- Server: after a read that leaves something to write (the interim response, a 400, a 500) the
     connection waits for writability, so the client receives it without sending anything more. -/
 theorem server_switches_to_out (c : Client) (rd : Recv) (t : List Byte) (c' : Client) (reqs : List Request)
     (h : c.read rd t = (c', reqs, none)) (hpw : pendingWrite c'.conn = true) (hc : c'.state ≠ .closed) :
     c'.state = .awaitingOut := by
-  sorry
+  exact server_switches_to_out' c rd t c' reqs h hpw hc
 
 end MicroHttp.C13
